@@ -103,7 +103,7 @@ type PkgSpec struct {
 	InitOnly  []string
 }
 
-var keywordRe = regexp.MustCompile(`^(func|witness|pred|pure|axiom|lemma|extern|closed|protocol|lock|property|requires|ensures|case|modifies|loop|panics|inline|trusted|emits|allocs|unroll|shared|ghost|inv|threads|on|guar|protects|discipline|initonly|atomic|noframe|level|assume)\b`)
+var keywordRe = regexp.MustCompile(`^(func|witness|pred|pure|axiom|lemma|extern|closed|protocol|lock|property|requires|ensures|case|modifies|loop|panics|inline|trusted|emits|allocs|unroll|shared|ghost|inv|threads|on|guar|protects|discipline|initonly|atomic|noframe|level|assume|self|local|single|init|rely|counter)\b`)
 
 // parseContractFile extracts the //@ lines of a file.
 func parseContractComments(f *ast.File, fname string) []specLine {
@@ -274,6 +274,12 @@ func parsePkgSpec(pkg string, lines []specLine) (*PkgSpec, error) {
 			}
 			ps.Closed[ci.Name] = ci
 		case "assume":
+			if curProto != nil {
+				if err := curProto.parseLine(kw, rest, l.where); err != nil {
+					return nil, err
+				}
+				continue
+			}
 			// assume Iface.Method ensures expr
 			i := strings.Index(rest, " ensures ")
 			if i < 0 {
